@@ -119,7 +119,9 @@ def main():
             if nontrivial and key not in distinct:
                 distinct.add(key)
             # ---- K2: model vs implementation
-            res = model.run(spec, obs['actions'], obs['orders'], obs['descendants'])
+            # VERIF_NO_ORDERS=1: do not feed the recorded topological orders: the model then uses its own default order oracle
+            # (an experiment switch to measure how faithfully that oracle reproduces networkx; never set by ./check)
+            res = model.run(spec, obs['actions'], () if os.environ.get('VERIF_NO_ORDERS') else obs['orders'], obs['descendants'])
             d = []
             if res.get('ambiguous_orders'):
                 st['ambiguous_orders'] += 1
